@@ -19,6 +19,7 @@ import types
 VERIF = os.path.dirname(os.path.dirname(os.path.abspath(__file__)))
 REPO = os.path.abspath(os.environ.get('VERIF_REPO', '/repo'))
 SEED = int(os.environ.get('VERIF_SEED', '0') or 0)
+OUT_ROOT = os.path.abspath(os.environ.get('VERIF_OUT', os.path.join(VERIF, 'out')))
 
 
 class Inconclusive(Exception):
@@ -1053,3 +1054,10 @@ def thread_replica(mod, bases, tier, nthreads=4):
     if errors:
         out['inconclusive'].append('thread replica failed: %s' % errors[:2])
     return out
+
+
+def scratch_dir(cid):
+    """Directory for the temporary files of one check (VERIF_OUT lets concurrent runs keep apart)."""
+    d = os.path.join(OUT_ROOT, cid, 'tmp')
+    os.makedirs(d, exist_ok=True)
+    return d
